@@ -99,7 +99,7 @@ fn feed(fd: RawFd, buf: &[u8]) {
     _ => { crate::engine::HARNESS_FAULTS.fetch_add(1, std::sync::atomic::Ordering::Relaxed); }
   }
 }
-impl Drop for Pipes { fn drop(&mut self) { crate::sysseam::clear(self.kbd_r); crate::sysseam::clear(self.tab_r); crate::sysseam::unwatch_reads(self.kbd_r); crate::sysseam::unwatch_reads(self.tab_r); crate::sysseam::unwatch_writes(self.out_w); for fd in [self.kbd_r, self.kbd_w, self.tab_r, self.tab_w, self.out_r, self.out_w] { if fd >= 0 { let _ = close(fd); } } } }
+impl Drop for Pipes { fn drop(&mut self) { crate::sysseam::clear_once(); crate::sysseam::clear(self.kbd_r); crate::sysseam::clear(self.tab_r); crate::sysseam::unwatch_reads(self.kbd_r); crate::sysseam::unwatch_reads(self.tab_r); crate::sysseam::unwatch_writes(self.out_w); for fd in [self.kbd_r, self.kbd_w, self.tab_r, self.tab_w, self.out_r, self.out_w] { if fd >= 0 { let _ = close(fd); } } } }
 
 /// A foreign record: something a real evdev node emits that the reader must skip.
 pub fn foreign_record(sel: u64, arg: u64, stats: &mut WireStats, tablet: bool) -> Vec<u8> {
